@@ -28,6 +28,13 @@ def check(run):
     # B2: spellings of zero (trailing .0 / .00 / .000 parts, 0 written 00) and type-width boundary numbers around the
     # same template: classes of equal-comparing members of different arity, and neighbours at 2^16, 2^31, 2^63
     jobs += zero_and_boundary_families(U, rnd, 4 if quick else 30)
+    # B1, small scope: every token sequence of length <= 2 (quick) / 3 (thorough) after a stem (Tokens.tla), as far as the
+    # real parser accepts it: shapes no grammar author thought of
+    tok, tokcounts = vlib.token_universe(run, exe, sorted(U), 2 if quick else 3, cap=700 if quick else 2500, rnd=rnd)
+    run.extra["token_universe_candidates_accepted"] = tokcounts
+    for eco in sorted(tok):
+        if tok[eco]:
+            jobs.append({"k": "matrix", "eco": eco, "tag": "tokens", "texts": tok[eco], "part": [1 if (eco == "alpm" and "-" in t) else 0 for t in tok[eco]]})
     # B2: strings sampled from the regular expressions of the parsers themselves (shapes the grammar automata may lack)
     import regexgen
     for eco in sorted(U):
